@@ -436,7 +436,13 @@ class Extractor:
         pass
 
     def st_Delete(self, s):
-        self.emit(Unmodelled, s, what="Delete")
+        for t in s.targets:
+            if isinstance(t, ast.Subscript):
+                self.emit(Effect, s, call=("call", ("n", "del"), (index(self.ev(t.value), self.ev_slice(t.slice)),), ()))
+            elif isinstance(t, ast.Attribute):
+                self.emit(Effect, s, call=("call", ("n", "del"), (attr(self.ev(t.value), t.attr),), ()))
+            else:
+                self.emit(Unmodelled, s, what="Delete")
 
     def st_Expr(self, s):
         v = s.value
